@@ -121,7 +121,7 @@ func partC04H(a *hcli.Args, rep *report.Report, univName string, u *schema.Unive
 	}
 	strs := shortStrings(sigma, L)
 	subst := []byte{'(', ')', ',', ':', '"', '{', '}', '[', ']', '\\', 0x00, 0xff, '%', '&', '=', ' '}
-	sq.Bounds = fmt.Sprintf("every method of every resource: the valid request sent by the generated client with (a) an extra query parameter whose value is each of the %d strings of <=%d symbols over %v, the whole query replaced by each of them, every truncation / single-byte edit of the valid query; (b) the entity key segment replaced by each of the strings; (c) every truncation and single-byte deletion / substitution (%d bytes) of the JSON body; (d) method / content-type / protocol-version header variants; (e) tunnelled envelopes (both parts, one part missing, none, foreign part, doubled, unterminated, truncated every 7 bytes, form-encoded, no boundary); oracle: no panic escapes, status < 500, no stack trace; when a declared parameter loses its parenthesis balance, or the body is a non-empty strict prefix that is not JSON: 4xx and no resource invocation", len(strs), L, sigma, len(subst))
+	sq.Bounds = fmt.Sprintf("every method of every resource: the valid request sent by the generated client with (a) an extra query parameter whose value is each of the %d strings of <=%d symbols over %v, the whole query replaced by each of them, every truncation / single-byte edit of the valid query; (b) the entity key segment replaced by each of the strings, every key position of the path replaced on its own and every pair of key positions replaced together by all pairs of strings of <=2 symbols; (c) every truncation and single-byte deletion / substitution (%d bytes) of the JSON body; (d) method / content-type / protocol-version header variants; (e) tunnelled envelopes (both parts, one part missing, none, foreign part, doubled, unterminated, truncated every 7 bytes, form-encoded, no boundary); oracle: no panic escapes, status < 500, no stack trace; when a declared parameter loses its parenthesis balance, or the body is a non-empty strict prefix that is not JSON: 4xx and no resource invocation", len(strs), L, sigma, len(subst))
 	sr.Bounds = "every method of every resource: the valid response with every truncation / single-byte edit of its body, X-RestLi-Id and Location replaced by each short ROR2 string, error-header / status / content-type variants; oracle: the generated client call returns (value or error) and never panics"
 	w := NewWorld(u, DefaultConfig)
 	failq := func(kind string, r *schema.Resource, m *schema.Method, what, detail string, raw []byte) {
@@ -221,6 +221,43 @@ func partC04H(a *hcli.Args, rep *report.Report, univName string, u *schema.Unive
 			if j := strings.LastIndex(path, "/"); j > 0 && m.OnEntity {
 				for _, sx := range strs {
 					send("key-replaced", joinRaw(verb+" "+mkTarget(path[:j+1]+sx, query)+" "+proto, headers, body), false)
+				}
+			}
+			// (b') every key position of the path on its own, and every pair of key positions together (strings of
+			// <=2 symbols): keys that are only malformed one by one, or only well-formed when read together
+			{
+				segs := strings.Split(strings.TrimPrefix(path, "/"), "/")
+				var keyPos []int
+				// path = name [key] name [key] ...: walk it along the resource's segments
+				pos := 0
+				for _, sg := range r.Segments {
+					pos++ // the resource name
+					if sg.KeyName != "" && pos < len(segs) {
+						keyPos = append(keyPos, pos)
+						pos++
+					}
+				}
+				build := func(repl map[int]string) string {
+					out := append([]string{}, segs...)
+					for i, v := range repl {
+						out[i] = v
+					}
+					return "/" + strings.Join(out, "/")
+				}
+				short := shortStrings(sigma, 2)
+				for _, kp := range keyPos {
+					for _, sx := range strs {
+						send("path-key-replaced", joinRaw(verb+" "+mkTarget(build(map[int]string{kp: sx}), query)+" "+proto, headers, body), false)
+					}
+				}
+				for x := 0; x < len(keyPos); x++ {
+					for y := x + 1; y < len(keyPos); y++ {
+						for _, s1 := range short {
+							for _, s2 := range short {
+								send("path-key-pair-replaced", joinRaw(verb+" "+mkTarget(build(map[int]string{keyPos[x]: s1, keyPos[y]: s2}), query)+" "+proto, headers, body), false)
+							}
+						}
+					}
 				}
 			}
 			// (c) body
